@@ -147,6 +147,26 @@ PROPS = {
                    "the plasma stream once the mock-node harness is attached",
         "assumptions": ["SHA3-256 is an uninterpreted parameter of checkPoWNonce"],
     },
+    "C13": {
+        "module": "ZenonVerif.Props.C13",
+        "streams": [S("codec", 4000, 100000), S("calldata", 6000, 300000, driver=False)],
+        "rule": "codec stream: generated account blocks of all 5 block types (plus out-of-range types), up to 3 levels of "
+                "nested descendants, amounts nil/0/1/2^255-1/2^255/2^256-1/2^256/33+ bytes/negative, uint64 fields on varint "
+                "boundaries, data nil/empty/127/128/16383/16384/20000 bytes, and momentums with 0..101 content entries; "
+                "one evaluation = one value pushed through the real ComputeHash / Serialize / Deserialize / JSON / RLP code "
+                "and the same operation replayed by the Lean model; distinct = distinct (op,result) lines. calldata stream: "
+                "every ValidateSendBlock of the embedded contracts on canonical and re-arranged ABI call data (trailing bytes, "
+                "dirty padding, relocated tails); evaluated on the real code only (no Lean replay)",
+        "partial": "hash function is a parameter (injective on the inputs that arise); the two-node stream `variants` and the "
+                   "acceptance-side theorem uncovered_fields_normalised (T2: stored bytes are a function of covered fields and "
+                   "state) are not built in this round; RLP: generic item round trip is a theorem and the typed encoder is "
+                   "byte-equal to go-ethereum on the stream, the typed decoder (reflection over Go structs) is covered by "
+                   "Go-side round-trip monitors only; JSON object structure is not modelled (amount / nonce text forms are); "
+                   "T4 (call data canonical) has no Lean model of the ABI: it is an AST fact (every ValidateSendBlock "
+                   "re-packs block.Data) plus model-free monitors on every embedded method",
+        "assumptions": ["SHA3-256 (types.NewHash) is an uninterpreted parameter H: fixed 32-byte output, collision-free on the "
+                        "pre-images, data and descendant/content sources of the blocks compared"],
+    },
     "C18": {
         "module": "ZenonVerif.Props.C18",
         "streams": [S("paging", 30000, 2000000), S("rpc", 6, 300, timeout=7200), S("rpcserver", 1500, 200000)],
